@@ -5,7 +5,7 @@ import common
 
 # number of extra-seed worker processes of the thorough tier, per property (0 = the workload does not depend on the seed
 # enough to be worth it, or is already large)
-FANOUT = {'C04': 4, 'C05': 6, 'C07': 6, 'C09': 10, 'C10': 10, 'C11': 10, 'C12': 10, 'C13': 10, 'C14': 10, 'C15': 4, 'C16': 10,
+FANOUT = {'C01': 6, 'C02': 4, 'C04': 4, 'C05': 6, 'C07': 6, 'C09': 10, 'C10': 10, 'C11': 10, 'C12': 10, 'C13': 10, 'C14': 10, 'C15': 4, 'C16': 10,
           'C17': 4, 'C18': 8, 'C19': 10, 'C20': 10}
 
 
